@@ -165,8 +165,8 @@ package onnx
 //@   tags C12,C18
 //@   requires tp != nil
 //@   loop 1 invariant nElements == prod(arr(dims), off(dims), $i) && (forall k :: 0 <= k && k < $i ==> dims[k] >= 1)
-//@   ensures unsupported_type_refused: !supported_dt(tp.DataType) && !typed_field_populated(tp) ==> err != nil
-//@   ensures unsupported_type_with_typed_field_refused: !supported_dt(tp.DataType) && typed_field_populated(tp) ==> err != nil
+//@   ensures [C12] unsupported_type_refused: !supported_dt(tp.DataType) && !typed_field_populated(tp) ==> err != nil
+//@   ensures [C12] unsupported_type_with_typed_field_refused: !supported_dt(tp.DataType) && typed_field_populated(tp) ==> err != nil
 //@   ensures result_iff_ok: (err == nil) <==> (result != nil)
 //@   ensures shape: err == nil ==> rank(result) == len(tp.Dims) && (forall k :: 0 <= k && k < len(tp.Dims) ==> dim(result, k) == tp.Dims[k])
 //@   ensures dtype: err == nil ==> dtype(result) == onnx_dtype(tp.DataType)
